@@ -25,6 +25,9 @@ PROJ = tok("PROJ")
 class Cluster:
     """jobs: id -> dict(state=<code in the scheduler's own vocabulary>, deps=set, dep_kind=str, owner='me'|'other', steps=[(suffix, code)])"""
 
+    UIDNAME = "uid-account"     # the account the uid of the gwf process maps to (what the schedulers record as the owner)
+    ENVNAME = "env-account"     # what $LOGNAME/$USER say (differs under `su -m`, `sudo -E`, containers started with --user, cron wrappers)
+
     def __init__(self, kind):
         self.kind = kind
         self.jobs = {}
@@ -104,12 +107,19 @@ class Cluster:
         fmt = self._opt(args, ("--format",), ("-o",)) or "%.18i %.9P %.8j %.8u %.2t %.10M %.6D %R"
         only = self._opt(args, ("--jobs",), ("-j",))
         only = set(only.split(",")) if only else None
+        # --user NAME / -u NAME / --me: the scheduler knows the owner of a job by uid; our jobs belong to the account named UIDNAME
+        users = self._opt(args, ("--user",), ("-u",))
+        users = set(users.split(",")) if users else None
+        if "--me" in args:
+            users = {self.UIDNAME}
         mine_only = not ("--all" in args or "-a" in args) and False   # --all is about hidden partitions, not users: other users' jobs always show
         out = []
         if not ("--noheader" in args or "-h" in args):
             out.append(re.sub(r"%\.?\d*i", "JOBID", re.sub(r"%\.?\d*[tT]", "ST", fmt)))
         for jid, j in self.jobs.items():
             if j["state"] not in self._SQ or (only is not None and jid not in only) or (mine_only and j["owner"] != "me"):
+                continue
+            if users is not None and (self.UIDNAME if j["owner"] == "me" else "someone-else") not in users:
                 continue
             line = re.sub(r"%\.?\d*i", jid, fmt)
             line = re.sub(r"%\.?\d*t", j["state"], line)
@@ -232,6 +242,11 @@ BACKENDS = (("slurm", "gwf.backends.slurm", "SlurmOps"), ("sge", "gwf.backends.s
 def _ops(ctx, mod, cname, cluster, accounting=True):
     ci = ctx.index.cls(f"{mod}:{cname}")
     hooks = {"gwf.backends.utils.call": cluster, "attr:compile_script": lambda recv, t: "SCRIPT",
+             # who am I: getpass.getuser() trusts the environment, the uid is what the scheduler goes by
+             "getpass.getuser": lambda: Cluster.ENVNAME, "os.getlogin": lambda: Cluster.ENVNAME, "os.getuid": lambda: 1000, "os.geteuid": lambda: 1000,
+             "pwd.getpwuid": lambda uid: Obj("pwent", pw_name=Cluster.UIDNAME, pw_uid=uid),
+             "os.environ.get": lambda k_, d_=None: Cluster.ENVNAME if k_ in ("USER", "LOGNAME", "USERNAME") else d_,
+             "os.getenv": lambda k_, d_=None: Cluster.ENVNAME if k_ in ("USER", "LOGNAME", "USERNAME") else d_,
              "builtins.open": lambda p, mode="r", *a, **k: Obj("file", path=str(p), mode=mode), "attr:write": lambda recv, *a: None}
     interp = PureInterp(ctx, hooks=hooks)
     interp.max_depth = 14
